@@ -6,8 +6,11 @@ use std::collections::BTreeMap;
 
 pub mod c02;
 pub mod c03;
+pub mod c04;
+pub mod c05;
 pub mod c06;
 pub mod c07;
+pub mod c08;
 pub mod c09;
 pub mod c10;
 pub mod c12;
@@ -80,7 +83,7 @@ pub trait Scenario: Sync {
 }
 
 pub fn registry() -> Vec<&'static dyn Scenario> {
-    vec![&c02::C02, &c03::C03, &c06::C06, &c07::C07, &c09::C09, &c10::C10, &c12::C12, &c13::C13, &c14::C14, &c15::C15, &c16::C16, &c17::C17]
+    vec![&c02::C02, &c03::C03, &c04::C04, &c05::C05, &c06::C06, &c07::C07, &c08::C08, &c09::C09, &c10::C10, &c12::C12, &c13::C13, &c14::C14, &c15::C15, &c16::C16, &c17::C17]
 }
 pub fn lookup(id: &str) -> Option<&'static dyn Scenario> {
     registry().into_iter().find(|s| s.id().eq_ignore_ascii_case(id))
